@@ -9,11 +9,17 @@
 #include "log_rules.h"
 
 #include "unc_tools.h"
+#ifdef UNCRUSTIFY_VERIF
+#include "verif_hooks.h"
+#endif
 
 
 void log_rule2(const char *func, size_t line, const char *rule, Chunk *first, Chunk *second)
 {
    LOG_FUNC_ENTRY();
+#ifdef UNCRUSTIFY_VERIF
+   verif::note_rule(rule, line);
+#endif
 
    if (second->IsNot(CT_NEWLINE))
    {
